@@ -308,6 +308,25 @@ class BaseOdeModel(object):
             index = self.get_param_index(key)
             param_value[index] = val
 
+        # Distributions assigned earlier stay in force only for the parameters
+        # that have not been given a plain number since: integrate() and
+        # solve_determ() re-draw everything found in self._stochasticParam
+        # and would otherwise overwrite the values assigned here.
+        if self._stochasticParam is not None and parameters is not None \
+                and parameters is not self._stochasticParam:
+            if isinstance(parameters, dict):
+                if all(isinstance(v, Number) for v in parameters.values()):
+                    fixed = set(str(k) for k in parameters)
+                    left = dict((k, v) for k, v in self._stochasticParam.items()
+                                if str(k) not in fixed)
+                    if any(not isinstance(v, Number) for v in left.values()):
+                        self._stochasticParam = left
+                    else:
+                        self._stochasticParam = None
+            else:
+                # every other accepted form assigns numbers to all parameters
+                self._stochasticParam = None
+
         self._parameters = param_out
         self._paramValue = param_value
 
